@@ -22,7 +22,9 @@ RULE = ("hit: N (2..12 quick, ..40 thorough) real nodes with generated ids (hash
         "paging: 1..3 real storing nodes receive store RPCs from 0..120 generated announcer endpoints, a fresh node looks the value up "
         "through them (must yield exactly the announcers); non-trivial = more than K announcers. "
         "faults: one real searcher among 3..40 scripted endpoints (honest, silent, late, lossy or one of 20 hostile reply shapes, plus a "
-        "sybil subnet inventing ever closer contacts / endless pages); node and value lookups must end within (requests+1)*rpc_timeout of "
+        "sybil subnet inventing ever closer contacts / endless pages, plus 'deaf requesters' that send the searcher a request, stay silent "
+        "when its ping queue probes them 300 s later and send another request just before the lookup, whose key may be a deaf node's id); "
+        "node and value lookups must end within (requests+1)*rpc_timeout of "
         "virtual time and yield only valid results; non-trivial = at least one silent or hostile endpoint was actually contacted. "
         "distinct = canonical JSON.")
 ASSUMPTIONS = [
@@ -383,7 +385,7 @@ async def paging_async(case, out, loop):
 BEHAVIOURS = ["honest", "honest", "honest", "silent", "late", "lossy", "garbage", "truncated", "wrong_rpc_id", "other_address",
               "error", "pong_to_find", "list_to_find_value", "no_token", "contacts_not_triples", "private_contacts", "own_contact",
               "nonexistent_contacts", "many_closer", "invalid_compact", "duplicate_peers", "huge_pages", "endless_pages", "int_reply",
-              "dup_reply", "bad_port_contacts", "short_id_contacts", "str_fields"]
+              "dup_reply", "bad_port_contacts", "short_id_contacts", "str_fields", "deaf_requester", "deaf_requester"]
 
 
 def faults_strategy(tier):
@@ -397,7 +399,7 @@ def faults_strategy(tier):
         "p_drop": st.sampled_from([0.0, 0.0, 0.1, 0.4]),
         "sybil_budget": st.sampled_from([0, 0, 20, 200]),
         "shortlist": st.integers(1, 8),
-        "key_mode": st.sampled_from(["random", "an_endpoint_id", "own_id"]),
+        "key_mode": st.sampled_from(["random", "an_endpoint_id", "own_id", "a_deaf_id"]),
         "peers_stored": st.integers(0, 30),
     })
 
@@ -496,7 +498,7 @@ class World:
         r = self.rng
         if beh == "honest":
             return respond(honest_value())
-        if beh == "silent":
+        if beh in ("silent", "deaf_requester"):
             return None
         if beh == "late":
             return respond(honest_value(), delay=RPC_T + 0.5 + r.random() * 5)
@@ -617,6 +619,9 @@ async def faults_async(case, out, loop):
         key = nid("fkey%d" % case["seed"])
     elif case["key_mode"] == "an_endpoint_id":
         key = ep_ids[case["seed"] % len(ep_ids)]
+    elif case["key_mode"] == "a_deaf_id":
+        deaf = [i for i, b in enumerate(eps) if b == "deaf_requester"]
+        key = ep_ids[deaf[case["seed"] % len(deaf)]] if deaf else nid("fkey%d" % case["seed"])
     else:
         key = sid
     world = World(loop, net, case, saddr, sid, key)
@@ -656,6 +661,31 @@ async def faults_async(case, out, loop):
         shortlist = [make_kademlia_peer(ep_ids[i], ip_of(10 + i), 4444) for i in range(min(case["shortlist"], len(eps)))]
         if case["sybil_budget"]:
             shortlist.append(make_kademlia_peer(nid("sybil-entry%d" % case["seed"]), "17.1.1.1", 4444))
+        deaf = [i for i, b in enumerate(eps) if b == "deaf_requester"]
+        if deaf:
+            # history before the lookup: endpoints that talk but never answer (NAT'd, firewalled or hostile). Each sends the
+            # searcher a request, stays silent when the searcher's ping queue probes it MAYBE_PING_DELAY later, then sends
+            # another request shortly before the lookup. None of this is a reply: the lookup must not yield them.
+            searcher.protocol.ping_queue.start()            # as Node.join_network does
+            prng = random.Random(case["seed"] ^ 0xdeaf)
+
+            def talk(i):
+                rid = bytes(prng.randrange(256) for _ in range(20))
+                if prng.random() < 0.5:
+                    req = RequestDatagram.make_ping(ep_ids[i], rid)
+                else:
+                    req = RequestDatagram.make_find_node(ep_ids[i], nid("deafkey%d" % prng.randrange(1000)), rid)
+                net.send((ip_of(10 + i), 4444), saddr, req.bencode())
+            for i in deaf:
+                talk(i)
+            await jump(loop, constants.MAYBE_PING_DELAY + 1)
+            await asyncio.sleep(RPC_T + 2 + len(deaf) + case["max_delay"] * 2)
+            for i in deaf:
+                talk(i)
+            await asyncio.sleep(1 + case["max_delay"])
+            out.label("deaf_requester_history")
+            if any(p.node_id in [ep_ids[i] for i in deaf] for p in searcher.protocol.routing_table.get_peers()):
+                out.label("deaf_in_routing_table")
         yielded = []
         t0 = loop.time()
         finder = (searcher.get_iterative_node_finder(key, shortlist=shortlist, max_results=16) if case["kind"] == "node"
@@ -746,5 +776,6 @@ PARTS = [
     Part("paging", paging_strategy, lambda c: _run(paging_async, c), 200, 1000, quick_shards=4, thorough_shards=16,
          essential=("m:89-100", "m:17-88", "storers:1", "storers:3")),
     Part("faults", faults_strategy, lambda c: _run(faults_async, c), 400, 2000, quick_shards=6, thorough_shards=16,
-         essential=("kind:node", "kind:value", "contacted:silent", "contacted:sybil", "contacted:endless_pages", "contacted:many_closer")),
+         essential=("kind:node", "kind:value", "contacted:silent", "contacted:sybil", "contacted:endless_pages", "contacted:many_closer",
+                    "deaf_requester_history", "contacted:deaf_requester")),
 ]
